@@ -1,7 +1,16 @@
 import PebblesVerif.Props.C08
+import PebblesVerif.Props.C08Batch
 open PebblesVerif.GatewayBatch
 #print axioms C08_facts
 #print axioms C08_place_any_order
 #print axioms C08_order
 #print axioms C08_len
 #print axioms C08_empty
+#print axioms C08_emit_facts
+#print axioms C08_batch_answers
+#print axioms C08_batch_independent
+#print axioms C08_batch_executes
+#print axioms C08_batch_no_call
+#print axioms C08_emit_batch
+#print axioms C08_emit_single
+#print axioms C08_response
